@@ -117,10 +117,34 @@ type VecWideSpec struct {
 	Every  int    `json:"every"` // docs with i%Every==Every-1 carry no vector (0 = all carry one)
 }
 
+// SynWideSpec is a parametric description of many synonym documents that all
+// define the same left-hand term with the same synonyms, so that one term's
+// synonym postings exceed 1024 (synonym, document) pairs.
+type SynWideSpec struct {
+	N    int    `json:"n"`    // documents
+	Syns int    `json:"syns"` // synonyms per document
+	Thes string `json:"thes"`
+	Term string `json:"term"`
+}
+
+func (w *SynWideSpec) expand() []DocSpec {
+	out := make([]DocSpec, 0, w.N)
+	syns := make([]B, w.Syns)
+	for j := range syns {
+		syns[j] = B(fmt.Sprintf("sw%03d", j))
+	}
+	for i := 0; i < w.N; i++ {
+		out = append(out, DocSpec{ID: B(fmt.Sprintf("y%05d", i)), IDLast: true,
+			Fields: []FieldSpec{{Name: w.Thes, Kind: KindSyn, Syn: []SynDef{{Term: B(w.Term), Syns: syns}}}}})
+	}
+	return out
+}
+
 type BatchSpec struct {
 	Docs    []DocSpec    `json:"docs,omitempty"`
 	Wide    *WideSpec    `json:"wide,omitempty"`
 	VecWide *VecWideSpec `json:"vecWide,omitempty"`
+	SynWide *SynWideSpec `json:"synWide,omitempty"`
 }
 
 func (w *VecWideSpec) expand() []DocSpec {
@@ -236,7 +260,7 @@ func (w *WideSpec) expand() []DocSpec {
 
 // AllDocs returns the explicit documents followed by the wide expansion.
 func (b *BatchSpec) AllDocs() []DocSpec {
-	if b.Wide == nil && b.VecWide == nil {
+	if b.Wide == nil && b.VecWide == nil && b.SynWide == nil {
 		return b.Docs
 	}
 	out := append([]DocSpec(nil), b.Docs...)
@@ -245,6 +269,9 @@ func (b *BatchSpec) AllDocs() []DocSpec {
 	}
 	if b.VecWide != nil {
 		out = append(out, b.VecWide.expand()...)
+	}
+	if b.SynWide != nil {
+		out = append(out, b.SynWide.expand()...)
 	}
 	return out
 }
@@ -257,6 +284,9 @@ func (b *BatchSpec) NumDocs() int {
 	}
 	if b.VecWide != nil {
 		n += b.VecWide.N
+	}
+	if b.SynWide != nil {
+		n += b.SynWide.N
 	}
 	return n
 }
